@@ -490,16 +490,17 @@ pub fn c11_case(rng: &mut Rng, lazy_f_names: bool) -> CaseOut {
 
 // ------------------------------------------------------------------------------------------- C13
 
-pub fn c13_case(rng: &mut Rng, len_lo: usize, len_hi: usize) -> CaseOut {
+pub fn c13_case(rng: &mut Rng, len_lo: usize, len_hi: usize, with_q: bool) -> CaseOut {
     let mut out = CaseOut::default();
     let lang = &LSYM;
     let ns = rng.range(2, 4);
     // no four-slot leaf here: with S4 symmetries on several children the crate's shape computation (a cartesian product over
     // the children's groups) makes long histories take minutes, which only produces watchdog timeouts
-    let ops: Vec<&'static str> = SYM_OPS_ALL.iter().copied().filter(|o| *o != "q").collect();
+    // (the `with_q` lane uses short histories over few operators instead, so that four-slot symmetries are covered too)
+    let ops: Vec<&'static str> = if with_q { vec!["q", "h", "g", "f", "c", "u", "lam", "app"] } else { SYM_OPS_ALL.iter().copied().filter(|o| *o != "q").collect() };
     let cfg = GenCfg { lang, ops, ns, max_depth: 2, max_names: 4, shadow: rng.chance(1, 3) };
     let mut eg: EGraph<LSym> = EGraph::default();
-    let rules: Vec<(String, Rewrite<LSym>)> = sym_rules(rng).into_iter().filter(|r| !r.0.starts_with("q-rot")).collect();
+    let rules: Vec<(String, Rewrite<LSym>)> = if with_q { vec![] } else { sym_rules(rng).into_iter().filter(|r| !r.0.starts_with("q-rot")).collect() };
     let len = rng.range(len_lo, len_hi);
     let mut handles: Vec<AppliedId> = vec![];
     let mut slots_at_record: Vec<BTreeSet<Slot>> = vec![];
@@ -679,7 +680,8 @@ pub fn run(args: &Args, rep: &mut Rep) {
         _ => {
             let lo = args.param_u("len_lo", 30) as usize;
             let hi = args.param_u("len_hi", 120) as usize;
-            drive(args, rep, move |rng, _| c13_case(rng, lo, hi));
+            let with_q = args.param_u("with_q", 0) == 1;
+            drive(args, rep, move |rng, _| c13_case(rng, lo, hi, with_q));
         }
     }
 }
